@@ -1049,17 +1049,34 @@ impl InferContext {
 
     /// Resolve type aliases recursively
     pub fn resolve_type_alias(&self, type_id: TypeNodeId) -> TypeNodeId {
+        self.resolve_type_alias_through(type_id, &mut Vec::new())
+    }
+
+    /// `expanding`: the aliases being expanded on the way down. A cyclic alias (`type alias A = A`,
+    /// reported by the alias-cycle check but still in the table) becomes the failure type instead
+    /// of being expanded forever.
+    fn resolve_type_alias_through(
+        &self,
+        type_id: TypeNodeId,
+        expanding: &mut Vec<Symbol>,
+    ) -> TypeNodeId {
         match type_id.to_type() {
             Type::TypeAlias(alias_name) => {
                 let resolved_alias_name = self.resolve_type_alias_symbol_fallback(alias_name);
+                if expanding.contains(&resolved_alias_name) {
+                    return Type::Failure.into_id();
+                }
                 if let Some(resolved_type) = self.type_aliases.get(&resolved_alias_name) {
                     // Recursively resolve in case the alias points to another alias
-                    self.resolve_type_alias(*resolved_type)
+                    expanding.push(resolved_alias_name);
+                    let resolved = self.resolve_type_alias_through(*resolved_type, expanding);
+                    expanding.pop();
+                    resolved
                 } else {
                     type_id // Return original if not found (shouldn't happen)
                 }
             }
-            _ => type_id.apply_fn(|t| self.resolve_type_alias(t)),
+            _ => type_id.apply_fn(|t| self.resolve_type_alias_through(t, expanding)),
         }
     }
 }
